@@ -2,7 +2,7 @@
 generate's caller.  Not decided: that the automaton's look-ahead sets are exactly LALR(1) (C17)."""
 from ..mir import Mir
 from ..report import Result, finish
-from ..conflict import find_stage, check_writer, check_eq, check_scan, check_guards
+from ..conflict import find_stage, check_writer, check_eq, check_scan, check_guards, check_key_types
 from ..errdisc import check_err_discipline
 
 
@@ -10,13 +10,14 @@ def check(ctx):
     res = Result("C04", ctx["tier"], "other", ctx["seed"])
     mir = Mir(ctx["facts"]["mir"])
     res.rule("R-C04-writer", "the (state, look-ahead) -> action map is written in exactly one function, and there only by an insert that is control-dependent on a lookup of the same key having missed")
-    res.rule("R-C04-eq", "on a hit the only way to Ok is equality of the stored and the new *action*; the other branch builds the conflict error")
+    res.rule("R-C04-eq", "on a hit the only way to Ok is equality of the stored and the new *action*; the other branch builds the conflict error; every local type in the action map's type derives PartialEq / Eq / Hash (keys are equal exactly when they name the same cell)")
     res.rule("R-C04-scan", "on every call path from the table builder to the conflict detector there is no narrowing iterator adaptor, the loops range over all states and over the whole item set of each state, and no call towards the detector is guarded by a value read from the builder (only by the item's / rule's shape and by `?`)")
     res.rule("R-ERR-discipline", "every Result<_, KikiErr> produced in code reachable from generate is propagated by `?`, returned, or passed through an error-preserving combinator; never dropped, swallowed or type-erased")
     st = find_stage(mir, res, "R-C04-writer")
     if st is not None:
         check_writer(st, res, "R-C04-writer")
         check_eq(st, res, "R-C04-eq")
+        check_key_types(st, res, "R-C04-eq")
         check_scan(st, res, "R-C04-scan")
         check_guards(st, res, "R-C04-scan")
         res.count("functions on call paths generate -> conflict detector", len(st.chain))
